@@ -94,7 +94,7 @@ fn layouts<W: Write>(out: &mut W, prop: &str, opts: &Opts, rng: &mut Rng, max_le
 }
 
 /// one rule of the moov tree broken at a time
-fn moov_mutants(rng: &mut Rng) -> Vec<(String, Vec<u8>)> {
+pub fn moov_mutants(rng: &mut Rng) -> Vec<(String, Vec<u8>)> {
     let co = |co64: bool, e: &[u64]| bx(if co64 { b"co64" } else { b"stco" }, &co_payload(co64, e), Enc::S32);
     let stbl = |kids: &[Vec<u8>]| bx(b"stbl", &kids.concat(), Enc::S32);
     let minf = |kids: &[Vec<u8>]| bx(b"minf", &kids.concat(), Enc::S32);
@@ -170,7 +170,7 @@ fn moov_mutants(rng: &mut Rng) -> Vec<(String, Vec<u8>)> {
     v
 }
 
-fn file_with_moov(rng: &mut Rng, moov_payload: &[u8], noop: bool) -> Sparse {
+pub fn file_with_moov(rng: &mut Rng, moov_payload: &[u8], noop: bool) -> Sparse {
     let ftyp = bx(b"ftyp", &ftyp_payload(rng, true, 2, 0), Enc::S32);
     let mdat = bx(b"mdat", &[1, 2, 3, 4, 5], Enc::S32);
     let moov = bx(b"moov", moov_payload, Enc::S32);
